@@ -71,13 +71,23 @@ def run(tape, scenario):
         # also fewer than 7 (padded, with the count in the command byte) in the middle
         server.segment_size = lambda room: tape.pick(
             "c16/segment-bytes", [room, room, 1, 3, 6, 7, 8, max(1, room - 1), max(1, room // 2)])
+    if parallel and tape.chance("c16/terminal-kept-from-an-earlier-session", 40):
+        # the terminal was not reset since an earlier session of masters (which has left
+        # and taken its lock file along): it remembers the counter of the last mail it got
+        server.rx_counter = 1 + tape.draw("c16/counter-of-the-earlier-session", 7)
+        server.new_session = True
+        world.count("c16/terminal-remembers-an-earlier-session")
     maxdelay = tape.draw("c16/maxdelay", 4)
     term.mbx_delay = lambda: tape.draw("c16/answer-delay", maxdelay + 1)
     mail_kind = tape.draw("c16/mail", 6)       # 0-3 none, 4 EoE, 5 emergency
     mail = {4: "eoe", 5: "emergency"}.get(mail_kind, "none")
     mail_used = [False]
+    skip_mail = [0]
     if mail != "none":
         def before():
+            if skip_mail[0]:
+                skip_mail[0] -= 1       # (the answer to an abandoned request comes alone)
+                return []
             if tape.chance("c16/mail-now", 50):
                 mail_used[0] = True
                 world.count(f"fault/unrelated-mail-{mail}")
@@ -148,6 +158,26 @@ def run(tape, scenario):
                     viol("transfer-failed", "upload of a missing object: no answer within 2 s",
                          exception="TimeoutError", dir="up", **{"class": "abort"}, access="sub")
                     return
+            if tape.chance("c16/abandoned-unfetched-request-before", 12):
+                # a transfer given up (its caller timed out) while the slow terminal had
+                # not even taken the request out of its mailbox: the next transfer finds
+                # the mailbox full, waits for the answer nobody wants and goes on
+                skip_mail[0] = 1
+                term.mbx_fetch_delay = lambda: 4 + tape.draw("c16/fetch-delay", 12)
+                task = asyncio.ensure_future(t.sdo_read(0x2e01, 1))
+                for _ in range(200):
+                    if term.mbx_unfetched is not None or task.done():
+                        break
+                    await asyncio.sleep(10e-6)
+                term.mbx_fetch_delay = lambda: 0
+                if term.mbx_unfetched is not None and not task.done():
+                    term.mbx_unfetched[2] = max(term.mbx_unfetched[2], 2)
+                    task.cancel()
+                    world.count("c16/transfer-abandoned-with-request-unfetched")
+                try:
+                    await task
+                except (asyncio.CancelledError, EtherCatError):
+                    pass
             tr = plan()
             transfers.append(tr)
             params = {"dir": tr["dir"], "class": tr["class"], "access": tr["access"]}
